@@ -637,11 +637,11 @@ func (st *wstate) checkMulti(i int, l *scen.Lifetime, lf *model.Life, after worl
 		} else {
 			for k := 1; k < len(act); k++ {
 				a, b := act[k-1], act[k]
-				bad := false
+				// natural order of the ids: digit runs compare as numbers, everything else
+				// byte-wise (the generators never produce leading zeros)
+				bad := !naturalLess(a.ID, b.ID)
 				if a.Test == b.Test {
 					bad = a.K >= b.K
-				} else if !hasDigit(a.Test) && !hasDigit(b.Test) {
-					bad = !(a.Test+" - " < b.Test+" - ")
 				}
 				if bad {
 					return viol("not-sorted", i, -1, b.ID, []string{"C10"}, "after Clean with Sort, [%s] precedes [%s] in %s", a.ID, b.ID, path)
@@ -673,6 +673,36 @@ func cleanLabelText(plan *model.CleanPlan, touched map[string]bool, path string,
 		return []string{"C10"}
 	}
 	return def
+}
+
+// naturalLess: the natural order stated by C10, written down independently of the
+// library's comparator.
+func naturalLess(a, b string) bool {
+	isD := func(c byte) bool { return c >= '0' && c <= '9' }
+	i, j := 0, 0
+	for i < len(a) && j < len(b) {
+		if isD(a[i]) && isD(b[j]) {
+			si, sj := i, j
+			for i < len(a) && isD(a[i]) {
+				i++
+			}
+			for j < len(b) && isD(b[j]) {
+				j++
+			}
+			x, _ := strconv.ParseUint(a[si:i], 10, 64)
+			y, _ := strconv.ParseUint(b[sj:j], 10, 64)
+			if x != y {
+				return x < y
+			}
+			continue
+		}
+		if a[i] != b[j] {
+			return a[i] < b[j]
+		}
+		i++
+		j++
+	}
+	return len(a)-i < len(b)-j
 }
 
 func hasDigit(s string) bool { return strings.ContainsAny(s, "0123456789") }
